@@ -37,15 +37,16 @@ TSpareGet == Is("QGet") /\ E.role = "spare" /\ E.who = "s" /\ spare > 0 /\ SupTa
 TApplyPut == Is("QPut") /\ E.role = "applied" /\ E.who = "s" /\ SupApply(E.n) /\ Adv
 TApplyGet == Is("QGet") /\ E.role = "applied" /\ E.who = "c" /\ N5(E.n) /\ Adv
 TUsedPut  == Is("QPut") /\ E.role = "used" /\ E.who = "c" /\ N6(E.n) /\ Adv
-TClaimGet == Is("QGet") /\ E.role = "extra" /\ E.who = "c" /\ claim = 1 /\ Claim(E.n) /\ Adv
+\* the claim: `_extra_lid.put(None, block=False)` into the one-slot queue succeeded (a failed put logs nothing: TSilent)
+TClaimGet == Is("QPut") /\ E.role = "extra" /\ E.who = "c" /\ claim = 1 /\ Claim(E.n) /\ Adv
 \* `used.full()` by a consumer (N1 / N4 / N7) or by renew()
 TFull     == /\ Is("Full") /\ E.role = "used" /\ E.val = (used = M)
              /\ \/ E.who = "c" /\ (N1(E.n) \/ N4(E.n) \/ N7(E.n))
                 \/ E.who = "r" /\ Renew1
              /\ Adv
 \* renew(): internal token recycling is one step of the model; the harness logs its return
-TRenewIgnored == /\ \/ Is("QGet") /\ E.role = "used"
-                    \/ Is("QPut") /\ E.role \in {"spare", "extra"}
+TRenewIgnored == /\ \/ Is("QGet") /\ E.role \in {"used", "extra"}
+                    \/ Is("QPut") /\ E.role = "spare"
                  /\ E.who = "r" /\ rpc = "R3" /\ Same /\ Adv
 TRenewDone == Is("RenewDone") /\ Renew3 /\ Adv
 \* harness observations
@@ -62,7 +63,7 @@ TStopped  == /\ Is("Stopped") /\ ~E.late
 TAllStopped == Is("AllStopped") /\ stop /\ Same /\ Adv
 
 TSilent == /\ \/ \E s \in Sup : SupEndStart(s)
-              \/ \E c \in Con : (Claim(c) /\ cpc'[c] = "done")      \* lost the claim: get(timeout) raised Empty
+              \/ \E c \in Con : (Claim(c) /\ cpc'[c] = "done")      \* lost the claim: put(block=False) raised Full
            /\ Silent
 
 \* with a stop event the token queues are multiprocessing queues (not observable): the full() test before a get is silent
